@@ -199,6 +199,9 @@ impl File {
         crate::verif::point(crate::verif::Label::IoSync).await;
         Self::background_sync_call(
             move || {
+               // `size` may include the reservation of an append whose write has not reached the file yet:
+               // only what is in the file before the sync is durable after it
+               let size = size.min(file_inner.std_file.metadata()?.len());
                file_inner.std_file.sync_all()?;
                file_inner.synced_size.fetch_max(size, Ordering::SeqCst);
                Ok(())
